@@ -645,8 +645,12 @@ class World:
             zc = Zeroconf()
         finally:
             self._pending_host = None
-        zc.record_manager.listeners = OrderedSet()
-        zc._notify_futures = OrderedSet()
+        # iteration order of these two sets would otherwise depend on object addresses; only a *set* is replaced - if the
+        # library keeps its listeners in another kind of container, that container's semantics are what gets explored
+        if type(zc.record_manager.listeners) is set:
+            zc.record_manager.listeners = OrderedSet()
+        if type(zc._notify_futures) is set:
+            zc._notify_futures = OrderedSet()
         h.zc = zc
         h.azc = AsyncZeroconf(zc=zc) if asyncio_api else None
         if settle:
